@@ -33,6 +33,9 @@ T = {
  "C06": ("exploration", "independent chain walk over the tapped reply to a ResendRequest + side-effect comparison (counters, journal rows, state)", "§4 C06",
          "Outbound journals built through the real send path: every sequence of length <= 3 (quick) / <= 4 (thorough) over 7 slot kinds plus random journals, optionally after an earlier serviced request, x (BeginSeqNo, EndSeqNo) grids incl. invalid ranges x {ACTIVE, RESENDREQ_AWAITING}; the reply must be a contiguous chain from BeginSeqNo to min(End,last): retransmissions only of journaled accepted application messages with PossDupFlag/OrigSendingTime and identical body, everything else gap-filled, nothing beyond the range, no side effects outside it.",
          "for invalid requests only the side-effect clause is judged; OrigSendingTime of a retransmitted earlier copy may be either the copy's 122 or its 52"),
+ "C08": ("fault_enumeration", "fault enumeration: the writer dies at EVERY SQL-statement / commit boundary of generated operation sequences (in-process death for all, forked children dying by os._exit for a subset, both must agree); the re-opened file is compared with a dict model", "§4 C08",
+         "Generated operation sequences on a file-backed Journaler (create/load of up to 3 sessions incl. mirror CompIDs, persist in/out fresh/duplicate/out-of-order/binary, set_seq_num in all argument modes, reset): a dry run numbers every boundary (before/after each execute and commit, constructor included); the writer is killed at every one of them and a fresh Journaler on the file must report exactly the model state before or after the operation in flight (counters on both load paths, all rows of both directions byte for byte); normal endings (del, interpreter exit in a real subprocess, killed after the last operation) must give the final state.",
+         "process death, not power loss (sqlite3 and the OS trusted, as the property says); boundaries are Python-level statement boundaries, a death inside one sqlite3 C call is sqlite's own atomicity"),
  "C02": ("exploration", "independent strict framer as oracle on encoder output and on every tapped transport write", "§4 C02",
          "Every byte string the encoder returns for generated messages (incl. non-ASCII) and every write() of a real connection during random session histories is parsed by an independent strict FIX framer (BodyLength/CheckSum recomputed on bytes).",
          "vf.ref.fixwire is the definition of well-formed; empty values tolerated"),
